@@ -32,8 +32,9 @@ claim("C12", "Proof of the replication layout: batchify/unbatchify (tensors: lay
       not_covered=["nesting depth 3 (r,a,s): the non-linear index arithmetic (mod of mod over products of three symbolic factors) is not decided reliably by z3/cvc5; covered by the eval/loss stand-in only", "feasibility of forced OP start nodes when num_starts < #feasible (see known findings / stand-in)", "POMO/SymNCO regrouping lines (covered by the eval/loss stand-in)"])
 claim("C18", "Bounded stand-in only so far (labelled bounded): run-time contract check of every generator over the parameter grid stated in the evidence against the documented ranges, plus a mask-confined rollout per generated batch (solvable).",
       level="exploration", note="Bounded run-time contract check, not a proof.")
-claim("C09", "Bounded stand-in only so far (labelled bounded): exhaustive enumeration of all tours x all admitted moves for small N plus random move sequences and policy-chosen moves, checking tour validity and best-so-far bookkeeping against an independent oracle.",
-      level="exploration", note="Bounded run-time contract check, not a proof.")
+claim("C09", "Mixed: proof of the best-so-far bookkeeping of TSPkoptEnv._step with the tour surgery abstracted by its contract (current cost = length of the current tour; best cost = min, never increases, = length of the stored best tour; reward = decrease; best tour replaced row-wise by values exactly on improvement; visited_time = position along the tour, by a loop invariant) and of get_costs; tour validity under every admitted / sampled / policy-chosen move is checked by a bounded stand-in (exhaustive for small N).",
+      level="other", note="bookkeeping proved; _local_operator, PDPRuinRepairEnv, samplers and policies bounded run-time contract check.",
+      explanation="TSPkoptEnv._step (bookkeeping) and ImprovementEnvBase.get_costs are proved by tvc; _local_operator (2-opt / k-opt relinking loops), PDPRuinRepairEnv and the improvement policies are covered by the bounded stand-in improvement_envs (labelled bounded, not counted as proved).")
 claim("C16", "Proof that REINFORCE.calculate_loss equals -mean((reward - baseline) * log_likelihood) + baseline loss for scalar, per-instance, dataset ('extra') and absent baselines (shapes included), that shared-baseline advantages sum to zero per instance, and that exponential / critic baseline values are detached (ghost grad-path flag).",
       not_covered=["numerical equality of autograd gradients (A8)", "PPO / A2C / POMO / SymNCO step functions (stand-in)"])
 claim("C17", "Bounded stand-in only so far (labelled bounded): run-time contract check of every dataset class through the real dataloader construction, and of RolloutBaseline.wrap_dataset, over the grid stated in the evidence.",
